@@ -565,7 +565,7 @@ static void walk_trace(void)
 				if(r->tag == 0) {
 					uint64_t lp = r->a;
 					if(!(r->m_t < r->t))
-						rt_fail(lab("C03", "C13"), "LP %llu: history entry with timestamp %a released by fossil collection at GVT %a (not below it)",
+						rt_fail(lab(lab("C03", "C13"), "C04"), "LP %llu: history entry with timestamp %a released by fossil collection at GVT %a (not below it)",
 						    (unsigned long long)lp, r->m_t, r->t);
 					if(r->t != gvt_last[th])
 						rt_fail("C04", "thread %d reclaims history at GVT %a but the last GVT it was told is %a", r->rid, r->t, gvt_last[th]);
